@@ -376,8 +376,10 @@ def _check_fit(state, dat, res, add, opi, bump):
         for k, v in got.items():
             if k not in v:
                 mon.flag("prototype-key", "cluster keyed %r does not contain its key" % k)
-        if exp is not None and got != exp:
-            mon.flag("result-mismatch", "returned clusters %r, first-minimal-pair agglomeration gives %r" % ({k: sorted(v) for k, v in got.items()}, {k: sorted(v) for k, v in exp.items()}))
+        # Which of several tied pairs is merged and which member survives as prototype is the implementation's choice (the
+        # property fixes neither): agreement with the first-minimal-pair / keep-the-row prediction is recorded, not demanded.
+        if exp is not None:
+            bump("info:no_hook_result_equals_first_minimal_pair_prediction" if got == exp else "info:no_hook_result_differs_from_first_minimal_pair_prediction")
         protos = sorted(got)
         for i, a in enumerate(protos):
             for b in protos[i + 1:]:
